@@ -220,3 +220,97 @@ pub fn pin_clock_default() {
 }
 
 pub const BASE_TODAY: (i32, u32, u32) = (2024, 6, 15);
+
+// ---------------------------------------------------------------------------
+// a fresh OS process per observation (for what is cached per OS process: the clock
+// default of `--now`)
+// ---------------------------------------------------------------------------
+
+#[derive(serde::Serialize, serde::Deserialize)]
+pub struct OneShot {
+    pub files: std::collections::BTreeMap<String, Vec<u8>>,
+    pub argv: Vec<String>,
+    pub today: (i32, u32, u32),
+    pub proc_: Proc,
+}
+
+#[derive(serde::Serialize, serde::Deserialize)]
+pub struct OneShotOut {
+    pub ok: bool,
+    pub stdout: Vec<u8>,
+    pub err: String,
+    pub panicked: bool,
+    pub clock_reads: u64,
+}
+
+/// `okane-sim oneshot`: reads one `OneShot` from stdin, runs it as the first and only
+/// simulated process of this OS process, prints one `OneShotOut`.
+pub fn oneshot_main() {
+    install_panic_hook();
+    let mut input = String::new();
+    let _ = std::io::Read::read_to_string(&mut std::io::stdin(), &mut input);
+    let req: OneShot = match serde_json::from_str(&input) {
+        Ok(r) => r,
+        Err(e) => {
+            eprintln!("bad oneshot request: {}", e);
+            std::process::exit(2);
+        }
+    };
+    let res = std::thread::Builder::new()
+        .stack_size(crate::driver::WORKER_STACK)
+        .spawn(move || {
+            let mut v = Vfs::new(Rc::new(req.files));
+            v.glob_order = req.proc_.glob.clone();
+            v.chunks = req.proc_.read_chunks.clone();
+            v.today = chrono::NaiveDate::from_ymd_opt(req.today.0, req.today.1, req.today.2).expect("valid date");
+            let vfs = Rc::new(v);
+            let obs = run_cli(&vfs, &req.proc_, &req.argv);
+            let clock_reads = vfs.stats.borrow().clock_reads;
+            OneShotOut {
+                ok: obs.ok,
+                stdout: obs.stdout,
+                err: obs.err,
+                panicked: obs.panic.is_some(),
+                clock_reads,
+            }
+        })
+        .expect("spawn")
+        .join()
+        .expect("join");
+    println!("{}", serde_json::to_string(&res).unwrap());
+}
+
+/// Runs `argv` in a fresh OS process whose simulated clock shows `today`.
+pub fn run_cli_fresh_os_process(
+    files: &std::collections::BTreeMap<String, Vec<u8>>,
+    proc_: &Proc,
+    today: (i32, u32, u32),
+    argv: &[String],
+) -> Result<OneShotOut, String> {
+    use std::io::Write as _;
+    let exe = std::env::current_exe().map_err(|e| e.to_string())?;
+    let mut child = std::process::Command::new(exe)
+        .arg("oneshot")
+        .stdin(std::process::Stdio::piped())
+        .stdout(std::process::Stdio::piped())
+        .stderr(std::process::Stdio::null())
+        .spawn()
+        .map_err(|e| e.to_string())?;
+    let req = OneShot {
+        files: files.clone(),
+        argv: argv.to_vec(),
+        today,
+        proc_: proc_.clone(),
+    };
+    {
+        let mut stdin = child.stdin.take().ok_or("no stdin")?;
+        stdin
+            .write_all(serde_json::to_string(&req).map_err(|e| e.to_string())?.as_bytes())
+            .map_err(|e| e.to_string())?;
+    }
+    let out = child.wait_with_output().map_err(|e| e.to_string())?;
+    if !out.status.success() {
+        return Err(format!("oneshot process failed: {:?}", out.status));
+    }
+    serde_json::from_slice(&out.stdout).map_err(|e| e.to_string())
+}
